@@ -125,6 +125,8 @@ static void build_catalogue(void)
 	/* --- B: chunked --- */
 	one("ch-simple", S(SL TEC END "5\r\nhello\r\n0\r\n\r\n"));
 	one("ch-two", S(SL TEC END "3\r\nhel\r\n2\r\nlo\r\n0\r\n\r\n"));
+	one("ch-two-long", S(SL TEC END "a\r\n0123456789\r\n6\r\nabcdef\r\n0\r\n\r\n"));
+	one("ch-three", S(SL TEC END "4\r\nabcd\r\n10\r\n0123456789ABCDEF\r\n5\r\nvwxyz\r\n0\r\n\r\n"));
 	one("ch-empty", S(SL TEC END "0\r\n\r\n"));
 	one("ch-hex-upper", S(SL TEC END "A\r\n0123456789\r\n0\r\n\r\n"));
 	one("ch-hex-lower", S(SL TEC END "a\r\n0123456789\r\n0\r\n\r\n"));
